@@ -12,7 +12,7 @@ RULE = (
     "Real Tuner in the simulator (generated tables, all model-free scheduler families) and over the scripted file back-end, with "
     "StoppingCriterion fields drawn singly and in combination (trials started / completed / finished, evaluations, wall-clock on the "
     "harness or simulated clock, metric thresholds inside the table's range), max_failures, wait_trial_completion_when_stopping, "
-    "asynchronous_scheduling, start_jobs_without_delay, exhaustion of finite spaces, failing scripts and an injected scheduler "
+    "asynchronous_scheduling, start_jobs_without_delay, exhaustion of finite spaces, failing scripts, NaN metric values (FIFO schedulers) and an injected scheduler "
     "exception. Oracle: every evaluation the loop makes of the criterion is recorded by a proxy and must agree with the monitor's own "
     "recomputation from its independent counts (documented '>' semantics); after the first iteration at which the criterion (or the "
     "failure limit, or exhausted-and-idle) holds the loop performs no further iteration, unless waiting for running trials, in which "
@@ -369,5 +369,5 @@ def case_scripted(t):
 
 SUBCHECKS = {
     "sim": {"fn": case_sim, "quick": 10000, "thorough": 200000, "required": ["ended-by-criterion", "exhausted", "crit:max_wallclock_time", "crit:max_num_evaluations", "wait_trial_completion_when_stopping=True"]},
-    "scripted": {"fn": case_scripted, "quick": 8000, "thorough": 150000, "required": ["ended-by-criterion", "exit-by-injected-exception", "exit-by-failure-limit", "exhausted", "wait_trial_completion_when_stopping=True"]},
+    "scripted": {"fn": case_scripted, "quick": 8000, "thorough": 150000, "required": ["nan-metric-values", "ended-by-criterion", "exit-by-injected-exception", "exit-by-failure-limit", "exhausted", "wait_trial_completion_when_stopping=True"]},
 }
